@@ -73,6 +73,9 @@ AlphabetSet ==
             s \in Addrs, d \in {"dupAddr", "badAddrLen"}} \cup
         {Op("tx", [BaseTx("commit", s) EXCEPT !.eon = BadEon, !.gm = 1, !.bad = "badPoint"], "fresh") : s \in Addrs}
      ELSE {}) \cup
+    (IF "forged" \in Kinds THEN
+        {Op("tx", [BaseTx("forged", s) EXCEPT !.cfg = Cands[i]], "forged") : s \in Addrs, i \in DOMAIN Cands}
+     ELSE {}) \cup
     (IF "badvote" \in Kinds THEN
         {Op("tx", [BaseTx("vote", s) EXCEPT !.cfg = Cands[1], !.bad = d], "fresh") : s \in Addrs, d \in {"dupAddr", "badAddrLen"}}
      ELSE {}) \cup
